@@ -90,10 +90,11 @@ def cells(spec):
     if conv in ("cf2d", "shoc_simple", "arakawa", "shoc_standard"):
         nodes = g["nodes"]
         holes = g.get("holes")
+        twisted = g.get("twisted") or []
         nj, ni = len(nodes) - 1, len(nodes[0]) - 1
         for j in range(nj):
             for i in range(ni):
-                if holes is not None and holes[j][i]:
+                if (holes is not None and holes[j][i]) or [j, i] in twisted:
                     out.append(None)
                     continue
                 pts = [nodes[a][b] for a, b in specs.cell_corner_nodes(j, i)]
@@ -113,6 +114,17 @@ def cells(spec):
                 out.append([tuple(p) for p in pts])
         return out
     raise ValueError(conv)
+
+
+def invalid_cells(spec):
+    """Linear indexes of cells that have coordinates but are self-intersecting by construction."""
+    conv, g = spec["conv"], spec["geom"]
+    if conv == "ugrid":
+        return sorted(g.get("invalid") or [])
+    if conv in ("cf2d", "shoc_simple"):
+        ni = len(g["nodes"][0]) - 1
+        return sorted(j * ni + i for j, i in (g.get("twisted") or []))
+    return []
 
 
 def cells_defined_by_statement(spec):
